@@ -464,6 +464,65 @@ fn gen_stale(count: u64, seed: u64) {
     }
 }
 
+/// The flush points at their real values: in the far regime (nothing but a full-enough log
+/// triggers maintenance) runs of writes and of reads that stop just below, at and just above
+/// 64 records, over a handful of keys; the snapshots after every call show the queue lengths.
+fn gen_flush(count: u64, seed: u64) {
+    use std::io::Write;
+    let out = std::io::stdout();
+    let mut o = std::io::BufWriter::new(out.lock());
+    let mut rng = Rng::new(seed);
+    let mut id = 0u64;
+    let nkeys = 6u32;
+    for cap in [-1i64, 3] {
+        for (nw, nr) in [(63u32, 0u32), (64, 0), (66, 0), (0, 63), (0, 64), (0, 66), (40, 40), (64, 64), (130, 10), (10, 130)] {
+            for order in 0..3 {
+                if id >= count {
+                    return;
+                }
+                let cfg = json!({"kind": "sync", "cap": cap, "ttl": -1, "tti": -1, "weigher": false,
+                    "hasher": "id", "nkeys": nkeys, "lean": false, "seed": 0});
+                let mut ops: Vec<Value> = Vec::new();
+                let mut vid = 1u32;
+                for k in 1..=3u32 {
+                    ops.push(json!({"op": "Insert", "k": k, "v": vid, "w": 1}));
+                    vid += 1;
+                }
+                ops.push(json!({"op": "Sync"}));
+                ops.push(json!({"op": "Advance", "d": 1}));
+                let (mut w, mut r) = (nw, nr);
+                while w + r > 0 {
+                    // order 0: writes first; 1: reads first; 2: shuffled
+                    let write = match order {
+                        0 => w > 0,
+                        1 => r == 0,
+                        _ => w > 0 && (r == 0 || rng.chance(1, 2)),
+                    };
+                    let k = 1 + rng.below(nkeys as u64) as u32;
+                    if write {
+                        if rng.chance(1, 5) {
+                            ops.push(json!({"op": "Invalidate", "k": k}));
+                        } else {
+                            ops.push(json!({"op": "Insert", "k": k, "v": vid, "w": 1}));
+                            vid += 1;
+                        }
+                        w -= 1;
+                    } else {
+                        ops.push(json!({"op": "Get", "k": k}));
+                        r -= 1;
+                    }
+                }
+                ops.push(json!({"op": "Sync"}));
+                for k in 1..=nkeys {
+                    ops.push(json!({"op": "Contains", "k": k}));
+                }
+                writeln!(o, "{}", json!({"id": id, "cfg": cfg, "ops": ops})).unwrap();
+                id += 1;
+            }
+        }
+    }
+}
+
 pub fn cmd_gen(args: &[String]) {
     // gen <profile> <seed> <count> <len>
     if args[0] == "unsync-batch" || args[0] == "sync-batch" {
@@ -473,6 +532,10 @@ pub fn cmd_gen(args: &[String]) {
     }
     if args[0] == "sync-grow" {
         gen_grow(args[3].parse().unwrap(), args[2].parse().unwrap(), args[1].parse().unwrap());
+        return;
+    }
+    if args[0] == "sync-flush" {
+        gen_flush(args[2].parse().unwrap(), args[1].parse().unwrap());
         return;
     }
     if args[0] == "sync-stale" {
